@@ -36,6 +36,9 @@ CHECKS = {
  "C11": dict(tech="static analysis: tag agreement, pop-on-every-success-path and request-from-this-fetch provenance rules, loop-bound recognition for placeholder and issue counts, fresh-allocation (no aliasing) rule for issued cookies, who-may-call rule for StoreCookie on SSA",
    text="Structural necessary conditions decided exactly for their clause: extension kinds typed as themselves; FetchData pops exactly the first cookie on every success path and returns the pre-pop copy; the request uses only Cookie[0], one cookie field, placeholders for i from len(cookies) to 8; clients build the request from this invocation's fetch outside any retry loop; servers issue len(Cookies)+len(Placeholders) cookies, each the freshly allocated Encode() of the session cookie sealed under provider.Current(); cookies stored only by ProcessResponse after authentication. Pool bounds over histories and the 1024-byte size budget are run-time arithmetic and are not decided (see DESIGN §5 for the known overflow at pool level 1).",
    ref="DESIGN.md §4 C11"),
+ "C13": dict(tech="static analysis: MAC must-pass gates (armed path queries from the verifying CMAC call), MAC-input and key provenance, cache-hit gates, header-frozen-after-MAC ordering rule, swap-pair recognition and forwarding gates on SSA",
+   text="Structural necessary conditions decided exactly for their clause: with a key and a matching authenticator the reply write (server) / success return (client) is reachable only through ConstantTimeCompare(option MAC, computed MAC) != 0, the MAC covering the decoded SCION layer and the received UDP datagram under the host-host key for this packet's source and addressed host; cached AS-level keys reused only on protocol/AS/host/epoch match; authenticated requests get PreparePacketAuthOpt(SPIServer)+CMAC under the verified key+serialised option, and no covered header field is changed after a MAC was computed; SPIs differ in the direction bit only; both reply arms swap IA/type/address (and ports), reverse the path, echo SCMP payload, go to the previous hop; forwarding only from the end-host port to other ports, unmodified. CMAC/DRKey internals are trusted.",
+   ref="DESIGN.md §4 C13"),
 }
 NA = {
  "C04": "all clauses are value arithmetic over time.Time/uint32 (truncation direction, era unfolding, order preservation); no structural or finite-domain clause; matching the constants would be a frozen-fragment proxy",
